@@ -4,7 +4,7 @@ from tools import common as C, wire
 from tools.gen import lines as L
 
 LEAN_MODULES = ["SCP.C01", "SCP.C04", "SCP.Termination", "SCP.ParserTotal", "SCP.LexerInv", "SCP.RegexFuel", "SCP.RegexBounds"]
-THEOREMS = ["SCP.RegexBounds.find_in_bounds", "SCP.RegexBounds.all_in_bounds", "SCP.RegexBounds.cap_in_bounds", "SCP.RegexFuel.addThreads_stable", "SCP.RegexFuel.addThreads_model_fuel", "SCP.LexerInv.cleanupInfos_spec", "SCP.LexerInv.aliasPass_spec", "SCP.LexerInv.lexText_sorted_typed", "SCP.C01.splitLines_length", "SCP.C01.splitLines_no_lf", "SCP.C01.splitLines_join",
+THEOREMS = ["SCP.RegexBounds.find_in_bounds", "SCP.RegexBounds.all_in_bounds", "SCP.RegexBounds.cap_in_bounds", "SCP.RegexBounds.find_from", "SCP.RegexBounds.all_chain", "SCP.RegexFuel.addThreads_stable", "SCP.RegexFuel.addThreads_model_fuel", "SCP.LexerInv.cleanupInfos_spec", "SCP.LexerInv.aliasPass_spec", "SCP.LexerInv.lexText_sorted_typed", "SCP.C01.splitLines_length", "SCP.C01.splitLines_no_lf", "SCP.C01.splitLines_join",
             "SCP.C01.execute_total", "SCP.C01.runLines_append", "SCP.C01.slot_spec",
             "SCP.C04.runLines_length", "SCP.C04.execute_eq",
             "SCP.Lemmas.Termination.findMatch_count", "SCP.Lemmas.Termination.replaceRange_mu",
